@@ -116,6 +116,8 @@ def check(ctx):
     from . import c05
     c05.check_rewrap(ctx, repo, "C04-R2")
     check_dict_literal(ctx, repo, "C04-R3")
+    ctx.rule("C04-R4", "memoised compiled code is built from the text only: no value read from the variable state flows into the IR (shared with C05-R9)")
+    c05.check_no_state_in_ir(ctx, repo, "C04-R4")
 
 
 # ------------------------------------------------------------------ R2
